@@ -122,6 +122,15 @@ pub fn observe(o: &Ontology) -> Obs {
             anomalies.push(("iter".into(), "into_iter differs from iter".into()));
         }
     }
+    if let Ok(mut v) = guarded(|| o.hpos().map(|t| t.id().as_u32()).collect::<Vec<u32>>()) {
+        v.sort_unstable();
+        if v != iter_ids {
+            anomalies.push(("iter".into(), "hpos() differs from iter()".into()));
+        }
+    }
+    if o.is_empty() != (len == 0) {
+        anomalies.push(("len".into(), format!("is_empty() = {} with len() = {len}", o.is_empty())));
+    }
     let mut uniq = iter_ids.clone();
     uniq.dedup();
     let mut terms: Vec<TermObs> = vec![];
